@@ -6,6 +6,7 @@ for _p in worldchecks.CONF:
     CHECKS[_p] = worldchecks.run
 CHECKS['C04'] = queuechecks.run_c04
 CHECKS['C05'] = queuechecks.run_c05
+CHECKS['C06'] = queuechecks.run_c06
 
 
 def replay(prop, path):
